@@ -722,6 +722,14 @@ impl Run {
             "sleep" => {
                 std::thread::sleep(std::time::Duration::from_millis(a(1) as u64));
                 emit(&self.sh, json!({"ev":"Slept","ms":a(1)}));
+                // A timer that has expired wakes its task from async-io's reactor thread, which may be late on a
+                // busy machine; polling the callers once more is always legal and lets them see the deadline
+                // themselves (Timer::poll compares with the clock), so "timeout applied" does not depend on load.
+                for i in 0..self.sched.tasks.len() {
+                    if self.sched.tasks[i].name.starts_with("caller") {
+                        self.sched.poll(i);
+                    }
+                }
             }
             "quiesce" => self.quiesce(),
             "dropconn" => {
